@@ -376,16 +376,6 @@ func (x *xf) pre(c *astutil.Cursor) bool {
 				x.rangeKind[n] = 2
 			}
 		}
-	case *ast.CallExpr:
-		if id, ok := n.Fun.(*ast.Ident); ok {
-			if (x.isBuiltin(id, "len") || x.isBuiltin(id, "cap")) && len(n.Args) == 1 {
-				if t := x.info.TypeOf(n.Args[0]); t != nil {
-					if _, ok := t.Underlying().(*types.Chan); ok {
-						fatal("%s: len/cap of a channel is not modelled", x.pos(n))
-					}
-				}
-			}
-		}
 	}
 	return true
 }
@@ -427,6 +417,19 @@ func (x *xf) post(c *astutil.Cursor) bool {
 				st.Close++
 				n.Fun = x.vs("Close")
 				return true
+			}
+			// len/cap of a channel: a visible read of the modelled channel (its capacity may be a model parameter)
+			if (x.isBuiltin(id, "len") || x.isBuiltin(id, "cap")) && len(n.Args) == 1 {
+				if t := x.info.TypeOf(n.Args[0]); t != nil {
+					if _, ok := t.Underlying().(*types.Chan); ok {
+						if id.Name == "len" {
+							n.Fun = x.vs("Len")
+						} else {
+							n.Fun = x.vs("Cap")
+						}
+						return true
+					}
+				}
 			}
 			if x.isBuiltin(id, "make") && len(n.Args) >= 1 {
 				if t := x.info.TypeOf(n); t != nil {
